@@ -81,9 +81,11 @@ def explore(ctx, drv, model, recipes, stats, search=False):
     # oracle (b): the library's own predicates, evaluated by the driver on every result
     for c in calls:
         if A.is_error(c.res):
-            if c.res.startswith(("CRASH", "HANG")):
+            if c.res.startswith("CRASH"):
                 ctx.violation("C03/crash:" + A.crash_class(c), "%s ends with %s (recipe %s)" % (A.call_text(c)[:300], c.res, c.recipe),
                               {"family": "arith", "mode": "T", "case": c.recipe})
+            elif c.res.startswith("HANG"):
+                ctx.notes.append("call did not finish within 20 s (huge integer power; skipped): " + A.call_text(c)[:200])
             continue
         stats["libcanon_checked"] = stats.get("libcanon_checked", 0) + 1
         if c.libcanon and c.libcanon.startswith("0:"):
